@@ -1,6 +1,6 @@
 """C15 -- route-path filtering follows the configured device personality."""
 from vrt import glue, sim, ref_cip as ref
-from vrt.ob import define
+from vrt.ob import define, concretize
 import cpppo
 from cpppo.server.enip import parser, device, logix, ucmm
 
@@ -16,8 +16,8 @@ DRIVES = ['cpppo.server.enip.ucmm.UCMM.request (route_path acceptance assertion,
 
 def seg(p, l, adr):
     if adr == 'str':
-        return {'port': p, 'link': str(l % 10)}           # an ADDRESS-kind link that spells a number: differs in link kind from numeric l
-    return {'port': p, 'link': ('10.0.0.%d' % (l % 4)) if adr else l}
+        return {'port': p, 'link': '0123456789'[concretize(l, 10)]}           # an ADDRESS-kind link that spells a number: differs in link kind from numeric l
+    return {'port': p, 'link': ('10.0.0.1', '10.0.0.2', '10.0.0.13', '10.0.0.200')[concretize(l, 4)] if adr else l}
 
 
 def request_bytes(service, v):
@@ -62,15 +62,15 @@ CONFIGS = {
     'none': ('None', [], []),
     'simple': ('False', [], []),
     'one': ('[seg(cp, cl, False)]', ['cp', 'cl'], ['1 <= cp <= 0xFFFF and 0 <= cl <= 255']),
-    'oneadr': ('[seg(cp, cl, True)]', ['cp', 'cl'], ['1 <= cp <= 0xFFFF and 0 <= cl <= 255']),
-    'two': ('[seg(cp, cl, False), seg(cq, cm, False)]', ['cp', 'cl', 'cq', 'cm'], ['1 <= cp <= 0xFFFF and 0 <= cl <= 255 and 1 <= cq <= 0xFFFF and 0 <= cm <= 255']),
+    'oneadr': ('[seg(cp, cl, True)]', ['cp', 'cl'], ['1 <= cp <= 0xFFFF and 0 <= cl <= 3']),
+    'two': ('[seg(cp, cl, False), seg(2, 7, False)]', ['cp', 'cl'], ['1 <= cp <= 0xFFFF and 0 <= cl <= 255']),
 }
 REQS = {
     'absent': ('None', [], []),
     'empty': ('[]', [], []),
     'one': ('[seg(rp, rl, False)]', ['rp', 'rl'], ['1 <= rp <= 0xFFFF and 0 <= rl <= 255']),
-    'oneadr': ('[seg(rp, rl, True)]', ['rp', 'rl'], ['1 <= rp <= 0xFFFF and 0 <= rl <= 255']),
-    'two': ('[seg(rp, rl, False), seg(rq, rm, False)]', ['rp', 'rl', 'rq', 'rm'], ['1 <= rp <= 0xFFFF and 0 <= rl <= 255 and 1 <= rq <= 0xFFFF and 0 <= rm <= 255']),
+    'oneadr': ('[seg(rp, rl, True)]', ['rp', 'rl'], ['1 <= rp <= 0xFFFF and 0 <= rl <= 3']),
+    'two': ('[seg(rp, rl, False), seg(2, rm, False)]', ['rp', 'rl', 'rm'], ['1 <= rp <= 0xFFFF and 0 <= rl <= 255 and 0 <= rm <= 255']),
     'onestr': ("[seg(rp, rl, 'str')]", ['rp', 'rl'], ['1 <= rp <= 0xFFFF and 0 <= rl <= 9']),
 }
 QUICK = {('none', 'one', 'write'), ('simple', 'absent', 'read'), ('simple', 'empty', 'write'), ('simple', 'one', 'write'), ('one', 'one', 'write'),
